@@ -24,7 +24,7 @@ def main():
     name = sys.argv[1]; props = sys.argv[2:] or [name.split("-")[0]]
     tier = os.environ.get("SEED_TIER", "quick")
     setup()
-    patch = "/verif/seeded/%s/patch.diff" % name
+    patch = os.environ.get("SEED_PATCH") or "/verif/seeded/%s/patch.diff" % name
     r = sh("git apply %s" % patch, cwd=REPO); assert r.returncode == 0, r.stderr
     b = sh("cargo build --release", cwd=VERIF + "/harness", env={"CARGO_NET_OFFLINE": "true"})
     if b.returncode != 0:
